@@ -294,7 +294,10 @@ static inline int readline_putchar(struct readline *rl, char c)
         retcode = READLINE_NOTHING;
     }
 
-    rl->last = c;
+    // Первой половиной пары CRLF/LFCR может быть только символ, который сам
+    // был обработан как перевод строки. Проглоченная вторая половина и
+    // символы, поглощенные escape-последовательностью, пару не начинают.
+    rl->last = (retcode == READLINE_NEWLINE) ? c : 0;
     return retcode;
 }
 
